@@ -57,6 +57,15 @@ def run(ctx):
         rule_spawn_count(dep(ctx, "C04", "C05"), "C05.L", fmm_, "vectorise_mmap")      # a row per record needs a worker
         from . import c05
         c05.selection_rule(dep(ctx, "C04", "C05"), fmm_)                               # each mode reaches a writer that can serve it
+        # every record taken by a worker gets its row, placed where no other row or the header lies
+        rule_taken_reaches(dep(ctx, "C04", "C05"), "C05.T", fmm_, "vectorise_mmap",
+                           lambda n: n.get("k") == "mcall" and cname(n) == "ktio::mmap::MMWriter::write_at", "row write")
+        c05.offset_rule(dep(ctx, "C04", "C05"), fmm_)
+        from . import c14
+        c14.size_rule(dep(ctx, "C04", "C14"), fmm_)
+        c14.writer_rule(dep(ctx, "C04", "C14"), fmm_)
+        if fb_ is not None:
+            c05.header_rule(dep(ctx, "C04", "C05"), fb_, fmm_)          # nothing but the one header line stands between rows
     from . import c06
     c06.reader_deps(ctx, "C04")
     from . import c15
